@@ -29,8 +29,11 @@ CONSTANT Tier
 VARIABLES cfg, m, steps
 vars == <<cfg, m, steps>>
 
-Alpha == IF Tier = "quick" THEN {0, 1, 2, 4, 8, 253, 255} ELSE {0, 1, 2, 3, 4, 8, 64, 252, 253, 255}
-MaxInput == 3
+\* "long": fewer symbols, longer inputs (several elements, nested sequences, chunk boundaries with ChunkBytes = 4)
+Alpha == CASE Tier = "quick" -> {0, 1, 2, 4, 8, 253, 255}
+           [] Tier = "long" -> {0, 4, 8, 255}
+           [] OTHER -> {0, 1, 2, 3, 4, 8, 64, 252, 253, 255}
+MaxInput == IF Tier = "long" THEN 6 ELSE 3
 Inputs == UNION { [1..n -> Alpha] : n \in 0..MaxInput }
 
 BoxU16 == TPtr(U16, "box")
@@ -47,8 +50,8 @@ Types == { U8, U16, TBool, TUnit, TOptBool, TCompact(1), TCompact(2), TCompact(4
            TEnum(<<TVariant(0, <<>>), TVariant(1, <<U8>>), TVariant(4, <<TBool, TSeq(U8, "vec")>>)>>) }
 RecTypes == { TNamed("RV"), TNamed("RB"), TNamed("Tree") }
 
-DLims == IF Tier = "quick" THEN {-1, 0, 1} ELSE {-1, 0, 1, 2}
-MLims == IF Tier = "quick" THEN {-1, 0, 2, 9} ELSE {-1, 0, 1, 2, 4, 9}
+DLims == CASE Tier = "quick" -> {-1, 0, 1} [] Tier = "long" -> {-1, 1} [] OTHER -> {-1, 0, 1, 2}
+MLims == CASE Tier = "quick" -> {-1, 0, 2, 9} [] Tier = "long" -> {-1, 6} [] OTHER -> {-1, 0, 1, 2, 4, 9}
 
 \* the node estimate the code announces for ordered maps/sets (btree_utils.rs, with the real constants) stays within the
 \* factor two the property allows, for every length up to 5000 and a range of entry sizes
